@@ -58,6 +58,25 @@ def hpRead (fixed : Bool) (h : HP) (n : Nat) (fseekF freadF : Option Fault) : HP
     else -- short read at end of file: reported as failure, position moves to the end
       ({ h1 with s := { h1.s with pos := h1.s.data.length }, last := if fixed then .unknown else h1.last }, none)
 
+/-- `HP_read` as the C text is now (after af826f2, "Hread delivers zeros for space allocated in this session that is not yet in the
+    file"): `zok` = the descriptor cache is on, the end of the file is dirty (`FILE_END_DIRTY`) and the request lies below `f_end_off`
+    (`bytes <= f_end_off - f_cur_off`).  A fault-free read that the file ends inside of then delivers what is there followed by zeros and
+    advances `f_cur_off`; the stream stands at the end of the file, so `last_op` is UNKNOWN.  With `zok = false` this is `hpRead true`
+    (`hpReadZ_false`), the function the engine `hp` drives (it opens its file without the cache). -/
+def hpReadZ (h : HP) (n : Nat) (zok : Bool) (fseekF freadF : Option Fault) : HP × Option (List Byte) :=
+  let (h1, ok) := if h.last = .write ∨ h.last = .unknown then hpSeek { h with last := .unknown } h.cur fseekF else (h, true)
+  if !ok then (h1, none) else
+  match freadF with
+  | some f => ({ h1 with s := { h1.s with pos := f.pos }, last := .unknown }, none)
+  | none =>
+    if h1.s.pos + n ≤ h1.s.data.length then
+      ({ s := { h1.s with pos := h1.s.pos + n }, cur := h1.cur + n, last := .read }, some ((h1.s.data.drop h1.s.pos).take n))
+    else if zok then
+      let got := (h1.s.data.drop h1.s.pos).take n
+      ({ s := { h1.s with pos := h1.s.data.length }, cur := h1.cur + n, last := .unknown }, some (got ++ List.replicate (n - got.length) 0))
+    else
+      ({ h1 with s := { h1.s with pos := h1.s.data.length }, last := .unknown }, none)
+
 /-- `HP_write` of `bs` -/
 def hpWrite (fixed : Bool) (h : HP) (bs : List Byte) (fseekF fwriteF : Option Fault) : HP × Bool :=
   let (h1, ok) := if h.last = .read ∨ h.last = .unknown then hpSeek { h with last := .unknown } h.cur fseekF else (h, true)
